@@ -573,6 +573,10 @@ class Side:
 				active = (cond['value'] == actual) if 'eq' == cond['op'] else (cond['value'] != actual)
 				if active and (full or expected[field['name']] is None or rng.random() < 0.7):
 					describe(field)
+				elif not active and rng.random() < 0.3:
+					# a stray value for the arm that is switched off (e.g. parent_id on a ROOT registration): it must not leak into
+					# anything derived from the active members (ids, bytes)
+					describe(field)
 			elif full or rng.random() < 0.6:
 				describe(field, force_str_ok=top and 'nem' == self.name and 'message' == field['name'] and type_name.startswith('TransferTransaction'))
 		rng.shuffle(pairs)
